@@ -214,9 +214,10 @@ Load ==
              /\ UNCHANGED <<blocks, tens, env, content, phase>>
   /\ UNCHANGED <<case, snaps, prog, pc, steps, iters, acc, track>>
 
+\* fresh memory for the current content, or (field "from") for the content recorded by an earlier snapshot
 Reload ==
   /\ Scripted("reload")
-  /\ Install(Dims, content) /\ Advance
+  /\ Install(Dims, IF "from" \in DOMAIN Op THEN snaps[Op.from].ct ELSE content) /\ Advance
   /\ UNCHANGED <<case, dimset, snaps, fin, prog, pc, status, steps, iters, acc, track>>
 
 LoadRaw ==
